@@ -315,45 +315,60 @@ def rule_gate(ctx, ci, R="R-C13-6"):
     nc = stub(ctx.repo, NC, "NoteContainer", name="content")
     fi, (cb, ln, d), paths = _place_paths(ctx, ci, lambda: nc)
     total = RatFun(cb.num * d.num + d.den * cb.den, cb.den * d.num)
-    gates = []
-    unbounded = False
-    for p in paths:
-        for e in log_of(p.interp):
-            if e[0] != "cmp":
-                continue
-            op, a, b = e[1], e[2], e[3]
-            if op in ("Eq", "NotEq"):
-                if (a.same(ln) and b.same(0)) or (b.same(ln) and a.same(0)):
-                    unbounded = True
-                continue
-            lhs, rhs = (a, b) if op in ("LtE", "Lt") else (b, a)
-            diff = RatFun(rhs.num * lhs.den - lhs.num * rhs.den, rhs.den * lhs.den)  # rhs - lhs
-            base = RatFun(ln.num * total.den - total.num * ln.den, ln.den * total.den)  # length - (beat + 1/value)
-            tol = RatFun(diff.num * base.den - base.num * diff.den, diff.den * base.den)  # (rhs - lhs) - (length - total)
-            gates.append((op, tol))
+    # Every ordering comparison on a path is a fact "X <= Y" / "X < Y" (as it came out on that path, whichever way round
+    # and with whichever operator the code wrote it).  On an accepting path the facts must say total <= length (exactly, or
+    # up to a tolerance); on a refusing path the opposite.
     why = ""
-    ok = bool(gates)
-    if not ok:
-        why = "no ordering comparison decides acceptance"
-    for op, tol in gates:
-        num, den = tol.num, tol.den
-        const = None
+    ok = True
+    n_facts = 0
+
+    def sub(x, y):
+        return RatFun(x.num * y.den - y.num * x.den, x.den * y.den)
+
+    def const_of(rf):
+        num, den = rf.num, rf.den
         if not num.terms:
-            const = Fraction(0)
-        elif set(num.terms) == set(den.terms):
+            return Fraction(0)
+        if set(num.terms) == set(den.terms):
             ratios = {num.terms[m] / den.terms[m] for m in num.terms}
             if len(ratios) == 1:
-                const = ratios.pop()
-        if const is None:
-            ok, why = False, "the accepting comparison is not 'beat + 1/value <= length (+ tolerance)': it differs from it by %r" % (tol,)
+                return ratios.pop()
+        return None
+    for p in paths:
+        if p.kind != "return" or not isinstance(p.value, bool):
+            continue
+        for e in log_of(p.interp):
+            if e[0] != "cmp" or e[1] in ("Eq", "NotEq"):
+                continue
+            op, x, y, res = e[1], e[2], e[3], e[4]
+            # the fact as "small (<= or <) big"
+            if (op, res) in (("LtE", True), ("Gt", False)):
+                small, big, strict = x, y, False
+            elif (op, res) in (("Lt", True), ("GtE", False)):
+                small, big, strict = x, y, True
+            elif (op, res) in (("GtE", True), ("Lt", False)):
+                small, big, strict = y, x, False
+            else:
+                small, big, strict = y, x, True
+            n_facts += 1
+            room = sub(ln, total)  # length - (beat + 1/value)
+            if p.value is True:
+                # accepted: the fact must be total <= length + tol, i.e. (big - small) - room == tol
+                tol = const_of(sub(sub(big, small), room))
+                good = tol is not None and ((tol == 0 and not strict) or TOL_MIN <= tol <= TOL_MAX)
+            else:
+                # refused: the fact must be length + tol < total (or <=, with a tolerance), i.e. (small - big) - room == tol ... with roles swapped
+                tol = const_of(sub(sub(small, big), room))
+                good = tol is not None and ((tol == 0 and strict) or TOL_MIN <= tol <= TOL_MAX)
+            if not good:
+                ok = False
+                why = ("on a path where the placement is %s the deciding comparison says %r %s %r: that is not 'total of the entries + 1/value <= length' "
+                       "(exactly, or with a tolerance between %s and %s)" % ("accepted" if p.value else "refused", small, "<" if strict else "<=", big, float(TOL_MIN), float(TOL_MAX)))
+                break
+        if not ok:
             break
-        if const == 0 and op == "LtE":
-            continue  # exact arithmetic: total <= length
-        if not (TOL_MIN <= const <= TOL_MAX) or op not in ("LtE", "Lt"):
-            ok, why = False, ("the gate compares float running sums with tolerance %s: accumulated rounding error (about 1e-13 per bar) "
-                              "makes it refuse placements whose exact total equals the bar length (e.g. the 20th quintuplet-sixteenth in 4/4); "
-                              "a tolerance between %s and %s decides exactly like rational arithmetic" % (float(const), float(TOL_MIN), float(TOL_MAX)))
-            break
+    if ok and not n_facts:
+        ok, why = False, "no ordering comparison decides acceptance"
     ctx.check(ok, R, "gate", fi.where(), "Bar.place_notes: accepting comparison", why)
     # the unbounded (0, 0) meter always accepts; a bar of length zero in another meter, e.g. (0, 4), accepts nothing
     for label, meter_, want in (("(0, 0)", (0, 0), True), ("(0, 4)", (0, 4), False)):
